@@ -32,6 +32,7 @@ pub fn db_profile(max_nodes: usize) -> ForestProfile {
         exclude_unknown_color3uint8: false,
         exclude_unknown_types: vec![],
         multi_spelling: false,
+        non_serializing: true,
     }
 }
 
@@ -137,6 +138,13 @@ pub fn equivalence(f: &GForest, ctx: &mut CaseCtx) -> PropResult {
 
 fn body(f: &GForest, ctx: &mut CaseCtx) -> PropResult {
     classify_forest(f, ctx);
+    // one case in eight runs after failed saves on this thread (state surviving a failed call would corrupt this save)
+    {
+        let h = f.nodes.len() as u64 * 31 + f.nodes.iter().map(|n| n.props.len() as u64 * 7 + n.name.len() as u64).sum::<u64>();
+        if h % 8 == 3 && super::c07::provoke_failed_saves(h.wrapping_mul(0x9E37_79B9_7F4A_7C15)) > 0 {
+            ctx.label("after_failed_saves_on_this_thread");
+        }
+    }
     let mut nontrivial = false;
     for n in &f.nodes {
         let types: std::collections::HashSet<_> = n.props.iter().map(|p| p.1.ty()).collect();
